@@ -251,6 +251,14 @@ def run(ctx):
                     dist["faults_before_write"] += 1
                 else:
                     dist["faults_in_write_phase"] += 1
+                if not failed:
+                    # the injected error did not come out of the call: then the call claims success, and every clause must hold of the file
+                    bad_ = check_state(orig, f.getvalue(), s, "embed")
+                    if bad_:
+                        ctx.violation("oracle", "an I/O error at operation %d (%s) was swallowed: the call returned normally, but %s" % (k, trace[k], bad_),
+                                      {"api": "mammoth.embed_style_map", "fault_operation": k, "operation": trace[k], "trace": trace,
+                                       "file_length": len(cur), "package": gen_xml.pkg_json(pkg)}, True)
+                        break
                 if failed and f.getvalue() != cur:
                     wrote = sum(1 for t in ff.trace[:-1] if t == "write")
                     single_write_phase = all(t in ("write", "truncate") for t in trace[first_mut:])
